@@ -20,7 +20,7 @@ MANIFEST = {
             '(ii) Behaviour: a cluster mixing old-code and new-code nodes runs calls, setCodeVersion, compaction, restarts from journal+dump and a replica catching up from a snapshot; each implementation folds its own tag into the state, '
             'so equality with the reference fold (decoded with the reference id table) decides which implementation ran on every node at every position; calls must resolve to the newest implementation <= the submitter\'s enabled version; '
             'setCodeVersion must raise for unsupported/lower versions; a node lacking the enabled version must stop exactly below the version entry.',
-    'note': 'Programs limited to 1-4 method names x versions 0-3 x <=3 consumers; behavioural part settles the cluster after every step (not schedule-adversarial).',
+    'note': 'Programs limited to 1-4 method names x 4 version levels (numbered 0-3, or a drawn monotone scale with multi-digit numbers such as 0/9/10/100) x <=3 consumers; behavioural part settles the cluster after every step (not schedule-adversarial).',
 }
 LEVEL = 'exploration'
 RULE = ('case = (program: method tables for object + consumers, threshold t; mode pure|cluster; cluster: which nodes run old code, step list of call/set_version/compact/restart/isolate/heal). '
@@ -29,6 +29,16 @@ ASSUMPTIONS = ['added methods have versions above every version of the old code 
                'a call is bound to an implementation when it is submitted (by the submitter\'s enabled version), as the command carries the method id']
 
 NAMES = ['a', 'b', 'ab', 'z']
+# version numbers behind the abstract versions 0..3 of a generated program (monotone, so the premise of the property is kept);
+# multi-digit numbers matter because method variants are named <name>_v<N> and anything that orders names as strings is wrong there
+SCALES = [[0, 1, 2, 3], [0, 2, 9, 10], [0, 3, 10, 12], [1, 9, 10, 11], [0, 9, 10, 100], [2, 3, 20, 100], [0, 1, 10, 2 ** 31]]
+
+
+def scaled(case):
+    sc = SCALES[case.get('vscale', 0) % len(SCALES)]
+    prog = case['prog']
+    f = lambda table: [[n, sc[v]] for n, v in table]
+    return dict(case, prog={'obj': f(prog['obj']), 'cons': [f(t) for t in prog['cons']], 't': sc[prog['t']]}, vmap=sc)
 
 
 def table_strategy():
@@ -50,6 +60,7 @@ def strategy(tier, mode=None):
         'prog': prog_strategy(),
         'mode': st.just(mode) if mode else st.sampled_from(['pure', 'cluster']),
         'old_nodes': st.integers(0, 3),      # bitmask over n1,n2 (n0 always runs new code)
+        'vscale': st.sampled_from([0, 0] + list(range(1, len(SCALES)))),
         'rng': st.integers(0, 99),
         'chunk': st.sampled_from([7, 100, 65536]),
         'steps': st.lists(step, min_size=1, max_size=16),
@@ -230,7 +241,7 @@ def run_pure(case):
                 return ('old-id-reinterpreted', 'id %d means %r in the old code but %r in the new code (program %r)' % (i, what, a_new.get(i), prog)), classes, True
         # name table: which _vN a fresh call resolves to at enabled version 0 .. max
         for node, table_t in ((old, t), (new, None)):
-            for e in range(0, 4):
+            for e in sorted(set(range(0, 4)) | set(x + d for x in case.get('vmap', []) for d in (-1, 0, 1) if x + d >= 0)):
                 node._SyncObj__onSetCodeVersion(e)
                 for cidx, table in enumerate([prog['obj']] + prog['cons']):
                     for nm in set(n for n, v in methods_of(table, table_t)):
@@ -333,7 +344,7 @@ def run_cluster(case):
             elif kind == 'setver':
                 if obj is None:
                     continue
-                v = x
+                v = case.get('vmap', [0, 1, 2, 3])[x]
                 e = obj.getCodeVersion()
                 sv = selfver(prog, t if is_old[name] else None)
                 cbs = []
@@ -429,13 +440,14 @@ def run_cluster(case):
 
 
 def run_case(case):
+    case = scaled(case)
     if case['mode'] == 'pure':
         v, classes, nontrivial = run_pure(case)
         trace = []
     else:
         v, classes, nontrivial, trace = run_cluster(case)
     return Result(nontrivial=nontrivial, classes=sorted(classes), violation=v,
-                  sample={'program': case['prog'], 'mode': case['mode'], 'old_nodes_mask': case['old_nodes'], 'steps': trace[:20]})
+                  sample={'program': case['prog'], 'versions': case['vmap'], 'mode': case['mode'], 'old_nodes_mask': case['old_nodes'], 'steps': trace[:20]})
 
 
 def shard(seed, n, tier, mode=None):
